@@ -328,8 +328,8 @@ func main() {
 			alpha = append(alpha, op{Kind: "D", K: k})
 		}
 		alpha = append(alpha, op{Kind: "RO"}, op{Kind: "RW"}, op{Kind: "REOPEN"})
-		if kind == storage.NeedleMapLevelDb && r.Quick() {
-			maxLen = 2 // leveldb reopen is slow; the memory kind carries the deep enumeration
+		if kind == storage.NeedleMapLevelDb {
+			maxLen = r.Pick(2, 3) // leveldb reopen is slow; the memory kind carries the deep enumeration
 		}
 		idx := make([]int, maxLen)
 		for L := 1; L <= maxLen; L++ {
@@ -382,9 +382,9 @@ func main() {
 		r.Count("exhaustive_len_"+kindName(kind), int64(maxLen))
 
 		// random histories
-		nh, nops := r.Pick(60, 1500), r.Pick(200, 1000)
+		nh, nops := r.Pick(60, 300), r.Pick(200, 500)
 		if kind == storage.NeedleMapLevelDb {
-			nh = r.Pick(12, 300)
+			nh = r.Pick(12, 60)
 		}
 		rng := r.SubRng("c01-random-" + kindName(kind))
 		names := []string{"", "a.txt", string(bytes.Repeat([]byte("n"), 255))}
